@@ -107,26 +107,34 @@ pub fn derive_plans(rng: &mut Rng, tier: Tier, count: usize) -> Vec<Plan> {
     let mut plans = vec![reference.clone()];
     let enable_delivery = rng.chance(2, 3);
     let enable_extreme = rng.chance(3, 4);
-    let enable_skew = tier == Tier::Exec && rng.chance(3, 4);
+    let enable_skew = rng.chance(3, 4);
+    let enable_identity = rng.chance(1, 2);
+    let enable_repeat = tier == Tier::InProc && rng.chance(1, 2);
     while plans.len() < count {
         let roll = rng.below(100);
         let mut plan = if enable_extreme && roll < 5 {
             Plan::plain("entropy_extreme:zero", [0u8; 16])
         } else if enable_extreme && roll < 10 {
             Plan::plain("entropy_extreme:ones", [0xffu8; 16])
-        } else if enable_extreme && roll < 20 {
+        } else if enable_extreme && roll < 18 {
             let mut key = reference.key;
             let bit = rng.below(128);
             key[bit / 8] ^= 1 << (bit % 8);
             Plan::plain("entropy_extreme:bitflip", key)
-        } else if enable_extreme && roll < 30 {
+        } else if enable_extreme && roll < 26 {
             Plan::plain("entropy_extreme:k0+1", key_plus_one(reference.key))
-        } else if enable_delivery && roll < 38 {
+        } else if enable_delivery && roll < 33 {
             // same key as the reference, only the delivery differs: must change nothing
             Plan::plain("delivery_only", reference.key)
-        } else if enable_skew && roll < 46 {
+        } else if enable_skew && roll < 41 {
             // same key as the reference, only the layout differs
             Plan::plain("layout_only", reference.key)
+        } else if enable_identity && roll < 48 {
+            // same key as the reference, only clock and pid differ
+            Plan::plain("identity_only", reference.key)
+        } else if enable_repeat && roll < 55 {
+            // same key as the reference, the stages having already run on this thread
+            Plan::plain("repeat_only", reference.key)
         } else {
             Plan::plain("entropy_reseed", rng.bytes16())
         };
@@ -145,8 +153,30 @@ pub fn derive_plans(rng: &mut Rng, tier: Tier, count: usize) -> Vec<Plan> {
         let force_skew = plan.kind == "layout_only";
         if force_skew || (enable_skew && rng.chance(1, 2)) {
             plan.skew_heap = (rng.range(1, 4096) as u64) * 16;
-            plan.skew_mmap = (rng.range(0, 64) as u64) * 4096;
+            // thread arenas sit at 64 MiB-aligned addresses: displace by whole arenas plus pages
+            plan.skew_mmap = (rng.range(0, 40) as u64) * (64 << 20) + (rng.range(0, 64) as u64) * 4096;
             plan.env_pad = rng.range(1, 4000) as u32;
+        }
+        let force_identity = plan.kind == "identity_only";
+        if force_identity || (enable_identity && rng.chance(1, 3)) {
+            // clock skew and jumps: the epoch itself, the far future, a frozen clock, a fast one
+            plan.clock_base = match rng.below(6) {
+                0 => 0,
+                1 => 4_102_444_800 + rng.below(1_000_000) as u64, // year 2100
+                2 => crate::sim_entropy::REF_CLOCK_BASE - rng.range(1, 86_400 * 365) as u64,
+                _ => crate::sim_entropy::REF_CLOCK_BASE + rng.range(1, 86_400 * 365) as u64,
+            };
+            plan.clock_step_ns = match rng.below(4) {
+                0 => 0,
+                1 => 1,
+                2 => 3_600_000_000_000,
+                _ => crate::sim_entropy::REF_CLOCK_STEP_NS,
+            };
+            plan.pid = rng.range(2, 4_000_000) as u32;
+        }
+        let force_repeat = plan.kind == "repeat_only";
+        if force_repeat || (enable_repeat && rng.chance(1, 6)) {
+            plan.repeat = rng.range(1, 3) as u32;
         }
         plans.push(plan);
     }
